@@ -284,12 +284,6 @@ def prunedTree (pre : Bytes) (ix : List Nat) (rt : Option Obj) : STree → List 
         | _ => []
 end
 
-/-- is the thing guarded by `md` switched on?  (no guard: yes; undefined toggle: no) -/
-def guardOn (obj : Obj) (md : Option Bytes) : Bool :=
-  match guardOf md with
-  | none => true
-  | some ep => obj.toggle ep == some true
-
 /-- the test of a table's own `self:` port in front of its rows: if it is switched off, only
     the enabling toggle itself is reported (ports.cpp: "an enabling port must always be
     traversed") -/
@@ -323,10 +317,19 @@ def fullTree (pre : Bytes) (ix : List Nat) (rt : Option Obj) : STree → List Ca
       | some obj =>
         match obj.kid (w.head ++ a ++ [47]) with
         | some (some c) =>
-          if guardOn obj md then
-            tableGate (toPorts kids) ix (pre ++ w.head ++ a ++ [47]) (some c)
-              (fullList (pre ++ w.head ++ a ++ [47]) ix (some c) kids 0)
-          else []
+          let below := tableGate (toPorts kids) ix (pre ++ w.head ++ a ++ [47]) (some c)
+            (fullList (pre ++ w.head ++ a ++ [47]) ix (some c) kids 0)
+          match guardOf md with
+          | none => below
+          | some ep =>
+            -- the toggle is a row of the sub-tree's own table ("name/toggle") or of this one
+            let (sub, e) := subportScan w.render ep
+            if sub then
+              if c.toggle (e.drop 1) == some true then below
+              else match index (toPorts kids) (e.drop 1) with
+                | some k => [(ix ++ [k], pre ++ w.head ++ a ++ [47] ++ e.drop 1)]
+                | none => []
+            else if obj.toggle ep == some true then below else []
         | _ => []
 end
 
